@@ -47,6 +47,9 @@ pub enum Pattern {
     /// client role, keep-alive k: a streamed QoS 0 publish is started, half of its payload supplied, the rest only k + 0.5 s
     /// later (a keep-alive tick falls inside the owed payload); afterwards the connection is idle: PINGREQ expected again
     ClientStreamThenIdle(u16),
+    /// idle connection; the application's publish service turns not ready by itself for 0.4 s (no inbound packet involved)
+    /// and ready again; the peer stays silent: the keep-alive still expires
+    DeadAfterNotReady,
     /// a publish handler busy for three periods with the receive limits reached (reading is paused) while the peer keeps
     /// sending a complete PINGREQ every `gap` deciseconds: the live peer is not timed out, everything is answered afterwards
     LiveBusy { gap: u8 },
@@ -292,6 +295,43 @@ async fn run_conn(c: Case) -> Verdict {
             }
             Verdict::Ok(CaseInfo::nontrivial(&c).label(if fragmented { "live-peer-fragmented" } else { "live-peer" }))
         }
+        Pattern::DeadAfterNotReady => {
+            let Some(t) = period(c.source) else { return Verdict::Inconclusive("pattern needs a period".into()) };
+            // idle for 0.3 s (keep-alive timer armed), not ready for 0.4 s, ready again; silence throughout
+            max_slip = max_slip.max(sleep_until(t0, Duration::from_millis(300)).await);
+            app.set_service_ready(false);
+            max_slip = max_slip.max(sleep_until(t0, Duration::from_millis(700)).await);
+            app.set_service_ready(true);
+            let resumed = t0.elapsed();
+            let deadline = resumed + t + Duration::from_millis(2200);
+            let mut end_at = None;
+            let mut i = 7u32;
+            while TICK * i <= deadline + Duration::from_millis(300) {
+                i += 1;
+                max_slip = max_slip.max(sleep_until(t0, TICK * i).await);
+                if ended(&eut) {
+                    end_at = Some(t0.elapsed());
+                    break;
+                }
+            }
+            if max_slip > slip_limit {
+                return Verdict::Inconclusive(format!("driver slipped {max_slip:?}"));
+            }
+            let Some(e) = end_at else {
+                return Verdict::Fail(Failure::new("dead-peer-not-timed-out", format!("C20/{}/dead-peer-not-timed-out", c.role.name()), format!("no packet at all after the handshake, the publish service was not ready from 0.3 s to 0.7 s, idle period {t:?}: the connection is still open {:?} after the handshake; case {c:?}", t0.elapsed())));
+            };
+            // not before the period has passed since the handshake (minus the tolerance)
+            if e + Duration::from_millis(600) < t {
+                return Verdict::Fail(Failure::new("timed-out-too-early", format!("C20/{}/timed-out-too-early", c.role.name()), format!("ended {e:?} after the handshake, idle period {t:?}: {:?}; case {c:?}", app.stops())));
+            }
+            sleep(TICK * 2).await;
+            let stops = app.stops();
+            if !stops.iter().any(|s| matches!(s, StopKind::Protocol(d) if d.contains("KeepAlive"))) {
+                return Verdict::Fail(fail(&c, "timeout-reason", format!("the idle connection ended with {stops:?} instead of a keep-alive timeout")));
+            }
+            eut.finish().await;
+            Verdict::Ok(CaseInfo::nontrivial(&c).label("dead-peer-after-service-not-ready"))
+        }
         Pattern::LiveBusy { gap } => {
             let Some(t) = period(c.source) else { return Verdict::Inconclusive("busy pattern needs a period".into()) };
             let gap = Duration::from_millis(u64::from(gap) * 100);
@@ -474,6 +514,7 @@ pub fn all_cases(thorough: bool) -> Vec<Case> {
                     }
                 }
                 out.push(Case { role, source: *source, pattern: Pattern::LiveBusy { gap: 5 } });
+                out.push(Case { role, source: *source, pattern: Pattern::DeadAfterNotReady });
             }
         }
         out.push(Case { role, source: Source::Client(10), pattern: Pattern::PartialStall });
@@ -582,7 +623,7 @@ pub fn run(ctx: &Ctx, started: Instant) -> i32 {
         level: "exploration",
         rule: format!(
             "{total} connections in real time (several repetitions at staggered phases of the 1 s timer wheel), all concurrent: keep-alive source {{client value 1/2 (thorough 3) s -> idle period k + k/2; handshake override idle_timeout / keep_alive 1/2 (3) s; v3 idle_timeout(0) = disabled}} x \
-             {{dead peer: 0..2 complete packets 0.5 s or T-0.5 s apart, then silence -> ended within [T-0.6 s, T+2.2 s] after the last complete packet with a keep-alive timeout (v5: DISCONNECT 0x8D); live peer: a complete packet every 0.5 s or T-1.0 s for three periods, whole or in two writes 0.2 s apart -> never ended; the same peer while a publish handler is busy for the three periods with the receive limits reached (reading paused) -> never ended, everything answered afterwards}}; \
+             {{dead peer: 0..2 complete packets 0.5 s or T-0.5 s apart, then silence -> ended within [T-0.6 s, T+2.2 s] after the last complete packet with a keep-alive timeout (v5: DISCONNECT 0x8D); live peer: a complete packet every 0.5 s or T-1.0 s for three periods, whole or in two writes 0.2 s apart -> never ended; the same peer while a publish handler is busy for the three periods with the receive limits reached (reading paused) -> never ended, everything answered afterwards; dead peer whose server-side publish service is not ready by itself for 0.4 s in between -> still ended by the keep-alive}}; \
              frame read rate 1 s / 16 bytes / max 4 s: partial frame then stall and 8 bytes/s trickle -> read timeout, 80 bytes/s -> frame handled, no timeout; half a CONNECT against connect timeout 1 s -> dropped within 3.5 s, no handshake; a CONNECT trickling in over 3 s, a piece every 0.6 s -> dropped as well (the timeout covers the whole CONNECT); disabled keep-alive -> still open after 4.5 s; \
              client role keep-alive 1/2 s idle (also with the send window of 1 taken by an unacknowledged publish) -> a PINGREQ in every window of k+1.2 s. A case whose driver woke up more than 0.3 s late is run again with fewer connections at once (up to three more rounds; {inconclusive} left without a verdict this run). Non-trivial = every pattern (each has a decisive gap or partial frame); distinct = (role, source, pattern)"
         ),
